@@ -30,6 +30,14 @@
             coordinates, whether outlier removal is switched off.  The reported anchors of the
             execution are judged by Trace.tla (W on exactly the reported anchors).
 
+   "far"    <<P, C, qs, t, nz, mask, fd, md, ff, mf>>  motions off the lattice (RigidFitOps: integer
+            quaternions): fixed = C + P (C may lie far from the origin), mobile model j =
+            C + R(qs[j]) P + t (+ noise nz on its first atom); t = <<x, y, z, den>> and
+            nz = <<x, y, z, den>> are rationals.  Expected: for every transformation the
+            generating motion's inverse as a rational AffineTransformation (the WITNESS
+            placement), its exact mean squared deviation over the masked atoms, the rounding
+            allowance in ulps and the ulp exponent of the coordinate magnitude.
+
    S1 claims are listed in Evaluate. *)
 EXTENDS RigidFitOps, SequencesExt
 
@@ -160,8 +168,35 @@ EvalAnch(c) ==
            (byPos /\ proper /\ moved # {} /\ Rank(Sub(F, (1..nM) \ moved)) = 3 /\ \A i \in DOMAIN outl : outl[i][2] # Zero3)
                => WitnessBoundOn(F, M, 1..nM)[1] > 0 >> >>
 
+(* ------------------------------------------------------------------ motions off the lattice *)
+MaxAbs3(v) == MaxI(Abs(v[1]), MaxI(Abs(v[2]), Abs(v[3])))
+EvalFar(c) ==
+  LET P == c[1]  C == c[2]  qs == c[3]  t == c[4]  nz == c[5]  mask == c[6]  fd == c[7]  md == c[8]  ff == c[9]  mf == c[10]
+      n  == Len(P)
+      A  == MaskSet(mask, n)
+      bc == Broadcast(fd, md)
+      nT == bc[2]
+      F  == [k \in 1..n |-> VAdd(C, P[k])]
+      \* numerators (over QD(qs[j])) of the rotation's displacement R P_k - P_k
+      off == [j \in DOMAIN qs |-> [k \in 1..n |-> MatVec(QE(qs[j]), P[k])]]
+      W  == FarWitnessMsd(nz, A)
+      \* an upper bound of every coordinate magnitude (a rotation about C moves no atom further
+      \* than twice its distance from C)
+      mag == MaxAbs3(C) + 4 * SetMax({MaxAbs3(P[k]) : k \in 1..n}) + MaxAbs3(t) + MaxAbs3(nz) + 1
+  IN << <<nT, bc[3], F, off, [j \in DOMAIN qs |-> QD(qs[j])], [j \in DOMAIN qs |-> FarWitness(qs[j], C, t)],
+          SeqOfSet({a - 1 : a \in A}), W, FarAllowUlps(Cardinality(A)), UlpExp(mag)>>,
+        << \* the witness placement is the inverse of the generating motion: R^T R = I
+           \A j \in DOMAIN qs : InverseLaw(qs[j]),
+           \* an exact rigid copy admits a placement without any deviation
+           nz = <<0, 0, 0, 1>> => W[1] = 0,
+           \* a displaced atom outside the mask does not count
+           (1 \notin A) => W[1] = 0,
+           bc[1] = "ok" /\ Len(qs) = ModelCount(md) /\ ModelCount(fd) = 1 /\ nT = Len(qs),
+           FineForm(ff) /\ FineForm(mf) /\ t[4] >= 1 /\ nz[4] >= 1 /\ A # {} >> >>
+
 Evaluate(c) == CASE c[1] = "fit" -> EvalFit(c[2]) [] c[1] = "affine" -> EvalAffine(c[2])
                  [] c[1] = "hist" -> EvalHist(c[2]) [] c[1] = "anch" -> EvalAnch(c[2])
+                 [] c[1] = "far" -> EvalFar(c[2])
 
 (* ------------------------------------------------------------------ bounded families *)
 PointSets == <<
@@ -258,15 +293,40 @@ AnchOK(c) ==
   /\ p[1] = "homologs" => Len(p[2]) = n
   /\ p[7] \in Outls(m)
 
+\* motions off the lattice: point sets of rank 1-3, centres near and far from the origin, rotations
+\* from a quarter turn down to 0.01 degrees, no / tiny / ordinary translation, no / tiny / large noise
+FarSets == <<PointSets[10], PointSets[11], PointSets[12], Chains[2], PointSets[8], PointSets[4]>>
+FarCentres == <<<<300, 400, 500>>, <<-700, 900, 1200>>, <<40, -50, 60>>, <<0, 0, 0>>, <<1000, -1000, 1000>>>>
+FarQuats == <<<<8192, 1, 0, 0>>, <<8192, 1, -1, 1>>, <<4096, 0, 1, 0>>, <<4096, 1, 1, -1>>, <<2048, -1, 0, 1>>,
+              <<1024, 1, 0, 0>>, <<256, 0, 0, 1>>, <<16, 1, 0, 0>>, <<1, 0, 0, 0>>, <<1, 1, 0, 0>>,
+              <<6000, -1, 1, 0>>, <<3000, 1, 0, -1>>, <<12, 3, -4, 0>>, <<0, 1, 1, 0>>>>
+FarTrans == <<<<0, 0, 0, 1>>, <<1, -1, 2, 4096>>, <<3, -2, 1, 1>>>>
+FarNoise == <<<<0, 0, 0, 1>>, <<2, -1, 1, 1024>>, <<1, 0, 0, 1>>>>
+FarDepths == <<<<0, 0>>, <<0, 2>>, <<1, 0>>, <<0, 0>>, <<1, 2>>, <<0, 1>>>>
+FarMasks(n) == <<<<>>, <<[k \in 1..n |-> k # n]>>, <<>>, <<[k \in 1..n |-> k % 2 = 1]>>, <<[k \in 1..n |-> k # 1]>>>>
+NFine == Len(FineForms)
+FarCases(PS, CS, QS, scale) ==
+  {LET key == p + 2 * ci + 3 * qi + 5 * ti + 7 * ni
+       dp == FarDepths[(key % Len(FarDepths)) + 1]
+       P == [k \in DOMAIN FarSets[p] |-> VScale(scale, FarSets[p][k])]
+   IN <<"far", <<P, FarCentres[ci], [j \in 1..ModelCount(dp[2]) |-> FarQuats[((qi + 3 * (j - 1) - 1) % Len(FarQuats)) + 1]],
+                 FarTrans[ti], FarNoise[ni], FarMasks(Len(P))[((key \div 2) % 5) + 1], dp[1], dp[2],
+                 FineForms[((key + ci) % NFine) + 1], FineForms[((2 * key + p + 1) % NFine) + 1]>>>> :
+      p \in PS, ci \in CS, qi \in QS, ti \in DOMAIN FarTrans, ni \in DOMAIN FarNoise}
+
 CasesTiny(z) == {c \in FitCases({3, 10}, {1, 2, 9}, {Zero3}) : FitOK(c)} \cup {c \in AffineCases({1, 20}, {"f32", "i64"}) : AffOK(c)}
                    \cup HistCases({5}, 3) \cup {c \in AnchCases({3}, {2}) : AnchOK(c)}
+                   \cup FarCases({1, 4}, {1, 4}, {1, 5, 10}, 1)
 CasesQuick(z) == {c \in FitCases(DOMAIN PointSets, 1..48, {Zero3, <<1, 0, 0>>}) : FitOK(c)}
                    \cup {c \in AffineCases({1, 4, 11, 20, 31, 46}, ToSet(Forms)) : AffOK(c)}
                    \cup HistCases({5, 26}, 4) \cup {c \in AnchCases({1, 2}, {2, 30}) : AnchOK(c)}
+                   \cup FarCases(DOMAIN FarSets, DOMAIN FarCentres, 1..10, 1)
 CasesThorough(z) == {c \in FitCases(DOMAIN PointSets, 1..48, {Zero3, <<1, 0, 0>>, <<0, -2, 1>>, <<3, 3, 3>>}) : FitOK(c)}
                    \cup {c \in AffineCases(1..48, {"f32", "i64"}) : AffOK(c)}
                    \cup {c \in AffineCases({1, 4, 7, 11, 15, 20, 26, 31, 38, 42, 46, 48}, ToSet(Forms)) : AffOK(c)}
                    \cup HistCases({5, 26, 40}, 4) \cup HistCases({5}, 5) \cup {c \in AnchCases({1, 2, 3}, {2, 9, 30, 41}) : AnchOK(c)}
+                   \cup FarCases(DOMAIN FarSets, DOMAIN FarCentres, DOMAIN FarQuats, 1)
+                   \cup FarCases(DOMAIN FarSets, DOMAIN FarCentres, DOMAIN FarQuats, 3)
 Cases == CASE Tier = "tiny" -> CasesTiny(0) [] Tier = "quick" -> CasesQuick(0) [] Tier = "thorough" -> CasesThorough(0)
 
 (* ------------------------------------------------------------------ the model *)
@@ -283,6 +343,17 @@ ASSUME \A p \in DOMAIN PointSets : IndexMirrorSymmetric(PointSets[p]) <=> Rank(P
 ASSUME Rank(PointSets[1]) = 0 /\ Rank(PointSets[2]) = 0 /\ Rank(PointSets[4]) = 1 /\ Rank(PointSets[8]) = 2 /\ Rank(PointSets[10]) = 3
 ASSUME HomologPath(<<"ALA", "ALA", "SER">>, <<"GLY", "GLY", "GLY">>, 3) = "fallback" /\ HomologPath(<<"ALA", "ALA", "SER">>, <<"GLY", "GLY">>, 1) = "Rejected"
        /\ HomologPath(<<"ALA", "GLY", "SER">>, <<"ALA", "GLY", "SER">>, 3) = "identity" /\ HomologPath(<<"ALA", "ALA", "ALA">>, <<"SER", "GLY", "GLY">>, 1) = "open"
+\* the quaternion rotation: D R(q) is D times a proper rotation.  Polynomial identities of degree <= 6
+\* in each of a, b, c, d: equality on a grid of 7 values per variable proves them for all integers
+ASSUME \A q \in (-3..3) \X (-3..3) \X (-3..3) \X (-3..3) :
+          /\ MatMul(Transpose(QRotScaled(q)), QRotScaled(q)) = MatScale(QD(q) * QD(q), Id3)
+          /\ Det(QRotScaled(q)) = QD(q) * QD(q) * QD(q)
+          /\ InverseLaw(q)
+ASSUME QRotScaled(<<1, 1, 0, 0>>) = MatScale(2, <<<<1, 0, 0>>, <<0, 0, -1>>, <<0, 1, 0>>>>)    \* quarter turn about x
+ASSUME \A i \in DOMAIN FarQuats : InverseLaw(FarQuats[i]) /\ QD(FarQuats[i]) > 0
+ASSUME UlpExp(1) = 0 /\ UlpExp(511) = 8 /\ UlpExp(512) = 9 /\ UlpExp(1300) = 10
+ASSUME FarBelow(16 * 12 + 1, 0, 4) /\ ~FarBelow(16 * 12 + 2, 0, 4) /\ FarBelow(500, 400, 1)
+ASSUME Len(FineForms) = 7 /\ \A i \in DOMAIN FineForms : FineForm(FineForms[i])
 ASSUME Det(HistQ) = 1 /\ HistQ \in Proper
 ASSUME \A f \in ToSet(Forms) : Forms[FormNo(f)] = f
 ASSUME Broadcast(0, 0) = <<"ok", 1, 0>> /\ Broadcast(0, 3) = <<"ok", 3, 3>> /\ Broadcast(2, 0)[1] = "Unspecified" /\ Broadcast(2, 3)[1] = "Rejected" /\ Broadcast(1, 3) = <<"ok", 3, 3>>
